@@ -3,7 +3,7 @@
 use std::cell::Cell;
 
 use gc_arena::collect::Trace;
-use gc_arena::lock::RefLock;
+use gc_arena::lock::{Lock, OnceLock, RefLock};
 use gc_arena::{Collect, Gc, GcWeak};
 
 use crate::alloc::{self, Ev};
@@ -18,6 +18,15 @@ pub enum P<'gc> {
     W(GcWeak<'gc, Node<'gc>>),
     SL(Gc<'gc, Leaf>),
     WL(GcWeak<'gc, Leaf>),
+    /// `Gc<RefLock<RefBody>>`
+    SR(Gc<'gc, RefNode<'gc>>),
+    WR(GcWeak<'gc, RefNode<'gc>>),
+    /// `Gc<Lock<LockBody>>`
+    SC(Gc<'gc, LockCell<'gc>>),
+    WC(GcWeak<'gc, LockCell<'gc>>),
+    /// `Gc<OnceLock<OnceBody>>`
+    SO(Gc<'gc, OnceCellT<'gc>>),
+    WO(GcWeak<'gc, OnceCellT<'gc>>),
 }
 
 impl<'gc> P<'gc> {
@@ -25,6 +34,9 @@ impl<'gc> P<'gc> {
         match self {
             P::S(g) => Some(Gc::erase(g)),
             P::SL(g) => Some(Gc::erase(g)),
+            P::SR(g) => Some(Gc::erase(g)),
+            P::SC(g) => Some(Gc::erase(g)),
+            P::SO(g) => Some(Gc::erase(g)),
             _ => None,
         }
     }
@@ -32,6 +44,9 @@ impl<'gc> P<'gc> {
         match self {
             P::W(g) => Some(GcWeak::erase(g)),
             P::WL(g) => Some(GcWeak::erase(g)),
+            P::WR(g) => Some(GcWeak::erase(g)),
+            P::WC(g) => Some(GcWeak::erase(g)),
+            P::WO(g) => Some(GcWeak::erase(g)),
             _ => None,
         }
     }
@@ -39,8 +54,85 @@ impl<'gc> P<'gc> {
         match self {
             P::S(g) => Gc::as_ptr(g) as *const () as usize,
             P::SL(g) => Gc::as_ptr(g) as *const () as usize,
+            P::SR(g) => Gc::as_ptr(g) as *const () as usize,
+            P::SC(g) => Gc::as_ptr(g) as *const () as usize,
+            P::SO(g) => Gc::as_ptr(g) as *const () as usize,
             P::W(g) => GcWeak::as_ptr(g) as *const () as usize,
             P::WL(g) => GcWeak::as_ptr(g) as *const () as usize,
+            P::WR(g) => GcWeak::as_ptr(g) as *const () as usize,
+            P::WC(g) => GcWeak::as_ptr(g) as *const () as usize,
+            P::WO(g) => GcWeak::as_ptr(g) as *const () as usize,
+        }
+    }
+    pub fn downgrade(self) -> P<'gc> {
+        match self {
+            P::S(g) => P::W(Gc::downgrade(g)),
+            P::SL(g) => P::WL(Gc::downgrade(g)),
+            P::SR(g) => P::WR(Gc::downgrade(g)),
+            P::SC(g) => P::WC(Gc::downgrade(g)),
+            P::SO(g) => P::WO(Gc::downgrade(g)),
+            x => x,
+        }
+    }
+    pub fn upgrade(self, mc: &gc_arena::Mutation<'gc>) -> Option<P<'gc>> {
+        match self {
+            P::W(g) => g.upgrade(mc).map(P::S),
+            P::WL(g) => g.upgrade(mc).map(P::SL),
+            P::WR(g) => g.upgrade(mc).map(P::SR),
+            P::WC(g) => g.upgrade(mc).map(P::SC),
+            P::WO(g) => g.upgrade(mc).map(P::SO),
+            _ => None,
+        }
+    }
+    pub fn is_dropped(self) -> bool {
+        match self {
+            P::W(g) => g.is_dropped(),
+            P::WL(g) => g.is_dropped(),
+            P::WR(g) => g.is_dropped(),
+            P::WC(g) => g.is_dropped(),
+            P::WO(g) => g.is_dropped(),
+            _ => false,
+        }
+    }
+    pub fn is_dead(self, fc: &gc_arena::Finalization<'gc>) -> bool {
+        match self {
+            P::S(g) => Gc::is_dead(fc, g),
+            P::SL(g) => Gc::is_dead(fc, g),
+            P::SR(g) => Gc::is_dead(fc, g),
+            P::SC(g) => Gc::is_dead(fc, g),
+            P::SO(g) => Gc::is_dead(fc, g),
+            P::W(g) => g.is_dead(fc),
+            P::WL(g) => g.is_dead(fc),
+            P::WR(g) => g.is_dead(fc),
+            P::WC(g) => g.is_dead(fc),
+            P::WO(g) => g.is_dead(fc),
+        }
+    }
+    /// `Gc::resurrect` / `GcWeak::resurrect`: `Ok(())` for a strong pointer, `Err(result)` for a
+    /// weak one
+    pub fn resurrect(self, fc: &gc_arena::Finalization<'gc>) -> Result<(), Option<P<'gc>>> {
+        match self {
+            P::S(g) => Ok(Gc::resurrect(fc, g)),
+            P::SL(g) => Ok(Gc::resurrect(fc, g)),
+            P::SR(g) => Ok(Gc::resurrect(fc, g)),
+            P::SC(g) => Ok(Gc::resurrect(fc, g)),
+            P::SO(g) => Ok(Gc::resurrect(fc, g)),
+            P::W(g) => Err(g.resurrect(fc).map(P::S)),
+            P::WL(g) => Err(g.resurrect(fc).map(P::SL)),
+            P::WR(g) => Err(g.resurrect(fc).map(P::SR)),
+            P::WC(g) => Err(g.resurrect(fc).map(P::SC)),
+            P::WO(g) => Err(g.resurrect(fc).map(P::SO)),
+        }
+    }
+    /// The payload id read through a strong pointer (`None`: an empty `OnceCell` carries none).
+    pub fn payload_id(self) -> Option<Option<u64>> {
+        match self {
+            P::S(g) => Some(Some(g.id.get())),
+            P::SL(g) => Some(Some(g.id.get())),
+            P::SR(g) => Some(Some(g.borrow().id.get())),
+            P::SC(g) => Some(Some(g.get().id)),
+            P::SO(g) => Some(g.get().map(|b| b.id)),
+            _ => None,
         }
     }
 }
@@ -68,12 +160,11 @@ fn trace_enter() -> Option<usize> {
 }
 
 fn trace_p<'gc, C: Trace<'gc>>(p: &Option<P<'gc>>, cc: &mut C) {
-    match p {
-        None => {}
-        Some(P::S(g)) => cc.trace_gc(Gc::erase(*g)),
-        Some(P::SL(g)) => cc.trace_gc(Gc::erase(*g)),
-        Some(P::W(g)) => cc.trace_gc_weak(GcWeak::erase(*g)),
-        Some(P::WL(g)) => cc.trace_gc_weak(GcWeak::erase(*g)),
+    let Some(p) = p else { return };
+    if let Some(g) = p.erased_strong() {
+        cc.trace_gc(g);
+    } else if let Some(g) = p.erased_weak() {
+        cc.trace_gc_weak(g);
     }
 }
 
@@ -129,6 +220,93 @@ impl Drop for Leaf {
     fn drop(&mut self) {
         alloc::push_event(Ev::Dropped(self.id.get()));
         self.id.set(TOMB);
+    }
+}
+
+/// An object whose *whole value* is a `RefLock`: mutated through the crate's own
+/// `Gc<RefLock<T>>::borrow_mut` / `try_borrow_mut` / `Gc::unlock`.  Traced by the crate's
+/// `Collect for RefLock<T>`, which forwards to `RefBody::trace`.
+pub type RefNode<'gc> = RefLock<RefBody<'gc>>;
+
+pub struct RefBody<'gc> {
+    pub id: Cell<u64>,
+    pub slots: [Option<P<'gc>>; NSLOTS],
+}
+
+unsafe impl<'gc> Collect<'gc> for RefBody<'gc> {
+    const NEEDS_TRACE: bool = true;
+
+    fn trace<C: Trace<'gc>>(&self, cc: &mut C) {
+        let fault = trace_enter();
+        for (i, s) in self.slots.iter().enumerate() {
+            if fault == Some(i) {
+                std::panic::panic_any(TraceFault);
+            }
+            trace_p(s, cc);
+        }
+        if matches!(fault, Some(j) if j >= NSLOTS) {
+            std::panic::panic_any(TraceFault);
+        }
+    }
+}
+
+impl<'gc> Drop for RefBody<'gc> {
+    fn drop(&mut self) {
+        alloc::push_event(Ev::Dropped(self.id.get()));
+        self.id.set(TOMB);
+    }
+}
+
+/// An object whose whole value is a `Lock`: mutated through `Gc<Lock<T>>::set` / `Gc::unlock`.
+/// `Lock<T>: Collect` needs `T: Copy`, so the payload cannot have a destructor: when the collector
+/// destructs such a value nothing observable happens (the harness infers it from the `live` flag).
+/// Traced by the crate's `Collect for Lock<T>` (on a copy of the payload).
+pub type LockCell<'gc> = Lock<LockBody<'gc>>;
+
+#[derive(Clone, Copy)]
+pub struct LockBody<'gc> {
+    pub id: u64,
+    pub v: Option<P<'gc>>,
+}
+
+unsafe impl<'gc> Collect<'gc> for LockBody<'gc> {
+    const NEEDS_TRACE: bool = true;
+
+    fn trace<C: Trace<'gc>>(&self, cc: &mut C) {
+        let fault = trace_enter();
+        if fault == Some(0) {
+            std::panic::panic_any(TraceFault);
+        }
+        trace_p(&self.v, cc);
+        if fault.is_some() {
+            std::panic::panic_any(TraceFault);
+        }
+    }
+}
+
+/// An object whose whole value is a `OnceLock`, allocated empty: filled through
+/// `Gc<OnceLock<T>>::set` / `get_or_init`.  While it is empty the crate's `Collect for OnceLock<T>`
+/// runs no client code at all (so no trace fault can be injected into it, and there is no payload
+/// id to read); no destructor either, so that the kind behaves uniformly.
+pub type OnceCellT<'gc> = OnceLock<OnceBody<'gc>>;
+
+pub struct OnceBody<'gc> {
+    pub id: u64,
+    pub v: P<'gc>,
+}
+
+unsafe impl<'gc> Collect<'gc> for OnceBody<'gc> {
+    const NEEDS_TRACE: bool = true;
+
+    fn trace<C: Trace<'gc>>(&self, cc: &mut C) {
+        let fault = trace_enter();
+        if fault == Some(0) {
+            std::panic::panic_any(TraceFault);
+        }
+        trace_p(&Some(self.v), cc);
+        if fault.is_some() {
+            std::panic::panic_any(TraceFault);
+        }
     }
 }
 
